@@ -8,6 +8,7 @@ from ..rules import common
 from ..window import lin
 
 TITLE = "HTTP/1.1 message framing is exact, segmentation-independent and bounded"
+TECHNIQUE = 'finite predicate abstraction (one within-bounds atom per peer-supplied length) over clang-14 CFGs; dominance rules for strict numeric parsing and conflict rejection; exception-escape analysis over the data-callback call graph with handler-type coverage; cycle analysis for progress; resume-scan back-up rule; sibling agreement'
 HS, HC = "iora::network::HttpServer", "iora::network::HttpClient"
 HSF, HCF, HMF = "iora/network/http_server.hpp", "iora/network/http_client.hpp", "iora/parsers/http_message.hpp"
 
